@@ -87,7 +87,9 @@ def main():
                           ("MC_CanvasImpl", "MC_CanvasImpl_cross", {"D": 3}),
                           ("MC_Dash", "MC_Dash_pinned4", {"TWO": 1, "MAXL": 3, "MAXSEG": 2, "OFFR": 2, "ARR3": 0}),
                           ("MC_Stroke", "MC_Stroke_pinned", {"LEN": 4}),
-                          ("MC_Surface", "MC_Surface", {"FIXED": 0, "MAXSIZE": 1})):
+                          ("MC_Surface", "MC_Surface", {"FIXED": 0, "MAXSIZE": 1}),
+                          ("MC_Cursor", "MC_Cursor", {"PINNED": 1, "N": 3}), ("MC_Cursor", "MC_Cursor", {"PINNED": 2, "N": 3}),
+                          ("MC_Cursor", "MC_Cursor", {"PINNED": 3, "N": 3}), ("MC_Cursor", "MC_Cursor", {"PINNED": 4, "N": 3})):
         r = run_tlc("selftest", mod, cfg=cfg, env=env, workers=8, timeout=900, allow_violation=True)
         expect("%s as the pinned code violates its refinement" % mod, r.invariant_violated is not None, str(r.invariant_violated))
     # mutated Raster.tla (span rounding constant) must fail RefinesCoverage
